@@ -13,7 +13,7 @@ seams.boot()
 from bubus.helpers import retry  # noqa: E402
 
 LEVEL = 'model_checking'
-RULE = ('semaphore_limit L in {1,2}; 2-4 concurrent callers; scopes global / class / self with colliding and distinct semaphore names, two classes, two instances; bodies that wait on the '
+RULE = ('semaphore_limit L in {1,2}; 2-4 concurrent callers, some arriving later (after or before an earlier caller finished, as the explorer chooses); scopes global / class / self with colliding and distinct semaphore names, two classes, two instances; bodies that wait on the '
         'environment, raise, or overrun the per-attempt timeout (with a retry); callers cancelled while waiting for a slot and while running; semaphore_timeout 0.5 s as a timer target with '
         'semaphore_lax True/False; the whole caller program is run on TWO successive virtual event loops in one execution without clearing the semaphore registry; after each round a black-box '
         'capacity probe (L fresh callers must enter at once, the L+1st must wait). all schedules <= L deviations. non-trivial = some caller had to wait for a slot or was cancelled / timed out; '
@@ -112,12 +112,18 @@ class SemWorld:
         except BaseException as ex:  # noqa: BLE001
             self.rec('done', who, 'other:' + type(ex).__name__ + ':' + re.sub(r'0x[0-9a-f]+', '0x..', str(ex))[:90])
 
+    async def late_caller(self, who, inst, kind):
+        """a caller that arrives later: when, relative to the other callers' progress, is the explorer's choice"""
+        await self.loop.pause('arrive:' + who)
+        await self.caller(who, inst, kind)
+
     async def program(self):
         p = self.spec['p']
         self.attempts = {}
         tasks = {}
-        for (who, inst, kind) in p['callers']:
-            tasks[who] = asyncio.ensure_future(self.caller(who, inst, kind))
+        for c in p['callers']:
+            who, inst, kind = c[:3]
+            tasks[who] = asyncio.ensure_future(self.late_caller(who, inst, kind) if len(c) > 3 else self.caller(who, inst, kind))
         if p.get('cancel'):
             asyncio.ensure_future(self.canceller(tasks, p['cancel']))
         for t in tasks.values():
@@ -128,7 +134,7 @@ class SemWorld:
         self.rec('quiescent')
         # black-box capacity probe per scope key used by the callers
         L = p['L']
-        for inst in sorted({i for _, i, _ in p['callers']}):
+        for inst in sorted({c[1] for c in p['callers']}):
             key = self.key_of(inst)
             if any(r[2] == 'probe' and r[4] == key for r in self.log if r[3] == self.round):
                 continue
@@ -219,6 +225,9 @@ def families(tier):
         'raise': [('c1', 'a1', 'raise'), ('c2', 'a1', 'pause'), ('c3', 'a1', 'raise')],
         'overrun': [('c1', 'a1', 'overrun'), ('c2', 'a1', 'pause')],
         '4mix': [('c1', 'a1', 'pause'), ('c2', 'b1', 'raise'), ('c3', 'a2', 'pause'), ('c4', 'a1', 'pause')],
+        # two callers arrive while the scope is partly or fully taken, after an earlier caller has (or has not yet) finished
+        '4late': [('c1', 'a1', 'pause'), ('c2', 'a1', 'pause'), ('c3', 'a1', 'pause', 'late'), ('c4', 'a1', 'pause', 'late')],
+        '3late2inst': [('c1', 'a1', 'pause'), ('c2', 'a2', 'pause'), ('c3', 'a1', 'pause', 'late'), ('c4', 'a2', 'pause', 'late')],
     }
     for L, scope, names, cs, lax, st, cancel in itertools.product((1, 2), ('global', 'class', 'self'), (('s', 's'), ('s', 't'), (None, None)), caller_sets, (True, False),
                                                                   (None, 0.5), (None, ('c2', 0), ('c2', 1), ('c1', 1))):
@@ -232,6 +241,8 @@ def families(tier):
             if cancel is not None and cs not in ('3same', '2cls', 'raise'):
                 continue
             if L == 2 and cs in ('2same', 'overrun', '2inst'):
+                continue
+            if cs in ('4late', '3late2inst') and (cancel is not None or st is not None or names == ('s', 't')):
                 continue
             if st is not None and cs in ('overrun',):
                 continue
@@ -280,10 +291,13 @@ def oracle(spec, res):
                 s = active.setdefault(k, set())
                 first_entry = who not in entered
                 entered.add(who)
-                if len(s) >= L:
-                    took_lax = p['lax'] and waited >= st - 1e-4
-                    if took_lax or who in lax_entries:
-                        lax_entries.add(who)
+                # a caller that waited the whole acquisition time-out under semaphore_lax went on WITHOUT a slot (the documented exception), whether or
+                # not the scope happened to empty at that very instant; it then runs beside the slot holders and does not count as one of them
+                if p['lax'] and waited >= st - 1e-4:
+                    lax_entries.add(who)
+                if len([x for x in s if x not in lax_entries]) >= L:
+                    if who in lax_entries:
+                        pass
                     else:
                         out.append(V('limit_exceeded', f'round {rnd}: {who} entered scope {k} with {sorted(s)} already running (limit {L}, waited {waited:.3f}s, lax={p["lax"]})', **tags))
                 elif first_entry and waited > 1e-4 and not who.startswith('probe'):
